@@ -152,6 +152,123 @@ def type_ref(a):
                 "location")
 
 
+def short_form_tables(a):
+    """CloudFormation short-form tags: `!X v` must load as `{<long form of X>: v}`. The long form is `Fn::X` for every
+    intrinsic function except Ref and Condition, which keep their name (CloudFormation's own rule). The table the loader
+    uses is the lazy_static initialiser; its entries are read off the MIR (constants: the solver's part is trivial here)."""
+    init = None
+    for m in re.finditer(r"^fn ((?:rules::)?<impl at [^>]*lazy_static[^>]*>::deref::__static_ref_initialize)\(\) -> HashMap<&str, &str> \{$", a.mir, re.M):
+        init = m.group(1)
+    if init is None:
+        a.ob.items.append({"obligation": "loader/short-form-table", "describe": "SHORT_FORM_TO_LONG_MAPPING initialiser not found",
+                           "verdicts": {}, "status": "inconclusive", "model": None})
+        return
+    ex = a.exec(re.escape(init), {"insert": mirexec.m_option, "new": lambda ex, av: ex.opq()}, log=("insert",), unroll=1, max_paths=50,
+                first_arg_re=r"\) -> HashMap<&str, &str>" if False else "")
+    a.fns.append("rules::SHORT_FORM_TO_LONG_MAPPING (lazy_static initialiser)")
+    bad, n = [], 0
+    for p in ex.paths:
+        ins = calls(p, "insert")
+        wrong = []
+        keys = []
+        for e in ins:
+            if len(e[2]) == 3 and e[2][1][0] == "str" and e[2][2][0] == "str":
+                n += 1
+                k, v = e[2][1][1], e[2][2][1]
+                keys.append(k)
+                want = k if k in ("Ref", "Condition") else "Fn::" + k
+                if v != want:
+                    wrong.append((k, v))
+            else:
+                wrong.append(("?", "?"))
+        need = {"Ref", "GetAtt", "Base64", "Sub", "GetAZs", "ImportValue", "Condition", "Select", "Split", "Join", "FindInMap", "If", "And",
+                "Or", "Not", "Equals"}
+        missing = sorted(need - set(keys))
+        bad.append(pc_term(p.pc) if (wrong or missing or len(set(keys)) != len(keys)) else "false")
+    c0 = a.discharge("loader/short-form-table", ex, bad,
+                f"short-form tag table ({n} entries): every entry maps X to `Fn::X`, except Ref and Condition which map to themselves; "
+                     "the CloudFormation intrinsic functions are all present; no key is entered twice", witness=False)
+    if c0:
+        c0["replay"] = replay_short_forms(a)
+        c0["reproduced"] = c0["replay"].get("reproduced", False)
+        a.candidates.append(c0)
+    # the two handlers that build `{long form: value}` for scalar / sequence payloads
+    for fname, payload_variant in (("handle_single_value_func_ref", "String"), ("handle_sequence_value_func_ref", "Null")):
+        ex = a.exec(r"(?:(?:rules::libyaml::)?loader::)?" + fname,
+                    {"contains": lambda ex, av: ("bool", ex.fresh("Bool", "known")), "short_form_to_long": lambda ex, av: ("tuple", [("str", "long-of"), av[0]]),
+                     "insert": mirexec.m_option, "new": lambda ex, av: ex.opq(), "to_string": mirexec.m_identity, "deref": mirexec.m_identity},
+                    log=("insert",), unroll=1, max_paths=200)
+        a.fns.append("rules::libyaml::loader::" + fname)
+        args = ex.arg_env
+        tag = args["_3"] if fname.startswith("handle_single") else args["_2"]
+        loc = args["_2"] if fname.startswith("handle_single") else args["_1"]
+        bad = []
+        for p in ex.paths:
+            r = p.ret
+            cons = calls(p, "contains")
+            ins = calls(p, "insert")
+            if p.outcome != "return" or r is None or r[0] != "enum" or len(cons) != 1 or not same(cons[0][2][1], tag):
+                bad.append(pc_term(p.pc))
+                continue
+            known = cons[0][3][1]
+            if r[2] == "0":
+                good = f"(not {known})" if not ins else "false"
+            else:
+                v = r[3].get("Some")
+                ok = (len(ins) == 1 and v is not None and v[0] == "variant" and v[2] == "Map" and same(v[3][0], ins[0][2][0]) and same(v[3][1], loc))
+                if ok:
+                    key, val = ins[0][2][1], ins[0][2][2]
+                    ok = (key[0] == "tuple" and key[1][0] == ("tuple", [("str", "long-of"), tag]) and same(key[1][1], loc)
+                          and val[0] == "variant" and val[2] == payload_variant and same(val[3][-1], loc))
+                    if ok and payload_variant == "String":
+                        ok = same(val[3][0], args["_1"])
+                good = known if ok else "false"
+            bad.append(f"(and {pc_term(p.pc)} (not {good}))")
+        c1 = a.discharge(f"loader/{fname}", ex, bad,
+                    f"{fname}: a known short-form tag yields a one-entry map whose key is the LONG form of that tag (at the scalar's "
+                    "location) and whose value is " + ("the scalar text as a String" if payload_variant == "String" else "a placeholder that "
+                    "the following sequence replaces") + "; an unknown tag yields nothing (the scalar stays a plain value)", witness=True)
+        if c1:
+            c1["replay"] = replay_short_forms(a)
+            c1["reproduced"] = c1["replay"].get("reproduced", False)
+            a.candidates.append(c1)
+
+
+def replay_short_forms(a):
+    exe = a.cli()
+    if not exe:
+        return {"reproduced": False, "note": "native build failed"}
+    data = ('A: !Ref x\nB: !GetAtt a.b\nC: !Join [ ",", [ "p", "q" ] ]\nD: !Sub "s"\nE: !Select [ 0, [ "u" ] ]\nF: !Base64 v\n'
+            'G: !If [c, 1, 2]\nH: !Condition k\nI: !ImportValue iv\nJ: !GetAZs r\nK: !Split [ "-", "a-b" ]\nL: !FindInMap [ m, k1, k2 ]\n'
+            'M: !Equals [ 1, 1 ]\nN: !Not [ true ]\nO: !And [ true, false ]\nP: !Or [ true, false ]\nU: !Unknown z\n')
+    cases = [('A.Ref == "x"', "PASS"), ('B."Fn::GetAtt" == "a.b"', "PASS"), ('C."Fn::Join"[0] == ","', "PASS"), ('C."Fn::Join"[1][1] == "q"', "PASS"),
+             ('D."Fn::Sub" == "s"', "PASS"), ('E."Fn::Select"[0] == 0', "PASS"), ('F."Fn::Base64" == "v"', "PASS"), ('G."Fn::If"[2] == 2', "PASS"),
+             ('H.Condition == "k"', "PASS"), ('I."Fn::ImportValue" == "iv"', "PASS"), ('J."Fn::GetAZs" == "r"', "PASS"),
+             ('K."Fn::Split"[1] == "a-b"', "PASS"), ('L."Fn::FindInMap"[2] == "k2"', "PASS"), ('M."Fn::Equals"[0] == 1', "PASS"),
+             ('N."Fn::Not"[0] == true', "PASS"), ('O."Fn::And"[1] == false', "PASS"), ('P."Fn::Or"[0] == true', "PASS"),
+             ('U == "z"', "PASS"), ('A is_struct', "PASS"), ('U is_string', "PASS")]
+    import os, tempfile, shutil, subprocess, json
+    out = []
+    for clause, exp in cases:
+        d = tempfile.mkdtemp(prefix="cfnverif_replay_")
+        try:
+            open(os.path.join(d, "r.guard"), "w").write(f"rule t {{\n  {clause}\n}}\n")
+            open(os.path.join(d, "d.yaml"), "w").write(data)
+            p = subprocess.run([exe, "validate", "-r", os.path.join(d, "r.guard"), "-d", os.path.join(d, "d.yaml"), "--structured", "-o", "json",
+                                "--show-summary", "none"], stdout=subprocess.PIPE, stderr=subprocess.PIPE, text=True, timeout=120)
+            try:
+                rep = json.loads(p.stdout)
+                r = rep[0]
+                got = "PASS" if "t" in r.get("compliant", []) else ("SKIP" if "t" in r.get("not_applicable", []) else "FAIL")
+            except Exception:
+                got = None
+        finally:
+            shutil.rmtree(d, ignore_errors=True)
+        out.append({"clause": clause, "expected": exp, "observed": got})
+    badc = [o for o in out if o["observed"] is not None and o["observed"] != o["expected"]]
+    return {"reproduced": bool(badc), "mismatches": badc[:5], "cases": out, "data": data}
+
+
 def replay_scalars(a):
     exe = a.cli()
     if not exe:
@@ -167,4 +284,4 @@ def replay_scalars(a):
     return a.replay_cases(exe, data, cases)
 
 
-SITES = {"C11": [scalar_typing, type_ref]}
+SITES = {"C11": [scalar_typing, type_ref, short_form_tables]}
